@@ -30,6 +30,9 @@ var c10Projects = map[string]*project{
 	"S1": {Root: "{ // {allOf: \"@base\"}\n\t\"id\": 1, // {min: 0}\n\t\"tags\": [\n\t\t\"a\",\n\t\t@tag\n\t],\n\t\"child\": @node, // {optional: true}\n\t\"kind\": \"x\", // {enum: @kinds}\n\t@tag: 5\n}",
 		Types: map[string]string{"@base": "{\n\t\"base\": true\n}", "@tag": `"t1" // {regex: "t\\d"}`, "@node": "{\n\t\"v\": 1.5, // {precision: 1}\n\t\"next\": @node // {optional: true}\n}"},
 		Enums: map[string]string{"@kinds": `["x", "y"]`}},
+	// every rule kind the converter handles, incl. or rule-sets with format types, enum, const, nullable
+	"S6": {Root: "{\n\t\"when\": \"2021-01-02T07:23:12+03:00\", // {or: [{type: \"datetime\"}, {type: \"integer\", min: 0}]}\n\t\"mail\": \"a@b.cc\", // {or: [\"email\", \"@tag\"]}\n\t\"day\": \"2021-01-02\", // {type: \"date\", nullable: true}\n\t\"pick\": 2, // {enum: [1, 2, \"x\"]}\n\t\"fixed\": \"c\", // {const: true}\n\t\"price\": 1.25, // {precision: 2, min: 0, exclusiveMinimum: true}\n\t\"code\": \"ab\", // {regex: \"^a\", minLength: 1, maxLength: 3}\n\t\"list\": [ // {minItems: 1, maxItems: 3}\n\t\t@tag\n\t],\n\t\"any\": 1, // {type: \"any\"}\n\t\"free\": {} // {additionalProperties: \"string\"}\n}",
+		Types: map[string]string{"@tag": `"t1" // {regex: "t\\d"}`}},
 	// shallow valid
 	"S2": {Root: "[\n\t1,\n\t\"two\",\n\t{\n\t\t\"three\": null\n\t}\n]"},
 	// fails in the scanner after some nodes were loaded
@@ -53,17 +56,22 @@ func (s c10Sym) String() string { return s.Obj + "." + s.Op }
 
 func c10Alphabet() []c10Sym {
 	var out []c10Sym
-	for _, o := range []string{"S1", "S2", "S3", "S4", "S5"} {
-		for _, op := range []string{"Check", "Example", "GetAST", "OpenAPI", "Len", "Used"} {
+	for _, o := range []string{"S1", "S2", "S3", "S4", "S5", "S6"} {
+		for _, op := range []string{"Check", "Example", "GetAST", "OpenAPI", "Dereference", "Len", "Used"} {
+			if op == "Dereference" && o != "S1" && o != "S6" {
+				continue
+			}
 			out = append(out, c10Sym{o, op})
 		}
 	}
 	for _, op := range []string{"Check", "Values", "Len", "GetAST"} {
 		out = append(out, c10Sym{"E1", op})
 	}
-	for _, op := range []string{"Check", "Example", "Len"} {
+	for _, op := range []string{"Check", "Example", "Len", "Example+write"} {
 		out = append(out, c10Sym{"R1", op})
 	}
+	// "+write": the caller overwrites the bytes it was given (they are its own)
+	out = append(out, c10Sym{"S1", "Example+write"}, c10Sym{"S6", "Example+write"}, c10Sym{"S2", "Example+write"})
 	for _, op := range []string{"Check", "Len", "Lexemes"} {
 		out = append(out, c10Sym{"D1", op})
 	}
@@ -97,12 +105,19 @@ func errSnap(err error) string {
 func c10Exec(objs *c10Objects, sym c10Sym) (res c10Result) {
 	res.sym = sym
 	set := func(f func() string) {
-		res.reread = f
-		res.snapshot = f()
+		// re-reading a retained value must never take the harness down
+		safe := func() (out string) {
+			if r, site := guard(func() { out = f() }); r != nil {
+				out = fmt.Sprintf("panic while reading the retained value: %v@%s", r, site)
+			}
+			return out
+		}
+		res.reread = safe
+		res.snapshot = safe()
 	}
 	rec, site := guard(func() {
 		switch sym.Obj {
-		case "S1", "S2", "S3", "S4", "S5":
+		case "S1", "S2", "S3", "S4", "S5", "S6":
 			s := objs.s[sym.Obj]
 			var buildErr error
 			if s == nil {
@@ -120,6 +135,13 @@ func c10Exec(objs *c10Objects, sym c10Sym) (res c10Result) {
 			case "Example":
 				b, err := s.Example()
 				set(func() string { return string(b) + "|" + errSnap(err) })
+			case "Example+write":
+				b, err := s.Example()
+				snap := string(b) + "|" + errSnap(err)
+				for i := range b {
+					b[i] = 'X'
+				}
+				set(func() string { return snap })
 			case "GetAST":
 				a, err := s.GetAST()
 				set(func() string { j, _ := stdjson.Marshal(a); return string(j) + "|" + errSnap(err) })
@@ -130,6 +152,20 @@ func c10Exec(objs *c10Objects, sym c10Sym) (res c10Result) {
 				}
 				b, err := openapi.NewSchemaObject(s).MarshalJSON()
 				set(func() string { return string(b) + "|" + errSnap(err) })
+			case "Dereference":
+				if s.Check() != nil {
+					set(func() string { return "not-accepted" })
+					return
+				}
+				infos := openapi.Dereference(s)
+				set(func() string {
+					var b strings.Builder
+					for _, in := range infos {
+						j, e := in.SchemaObject().MarshalJSON()
+						fmt.Fprintf(&b, "%v:%s|%v;", in.Type(), j, e)
+					}
+					return b.String()
+				})
 			case "Len":
 				l, err := s.Len()
 				set(func() string { return fmt.Sprint(l) + "|" + errSnap(err) })
@@ -172,6 +208,13 @@ func c10Exec(objs *c10Objects, sym c10Sym) (res c10Result) {
 			case "Example":
 				b, err := objs.r.Example()
 				set(func() string { return string(b) + "|" + errSnap(err) })
+			case "Example+write":
+				b, err := objs.r.Example()
+				snap := string(b) + "|" + errSnap(err)
+				for i := range b {
+					b[i] = 'X'
+				}
+				set(func() string { return snap })
 			case "Len":
 				l, err := objs.r.Len()
 				set(func() string { return fmt.Sprint(l) + "|" + errSnap(err) })
@@ -250,7 +293,8 @@ func c10History(w *core.W, hist []c10Sym, refs map[string]string, bound int) {
 				w.Violate(core.Violation{Clause: clause, Entry: "history", Input: strings.Join(names, " ; "), Witness: wit, Detail: detail, Sig: sig})
 			}
 			// (1) the result equals the one obtained first thing in a brand-new process
-			if want, ok := refs[sym.String()]; ok && r.snapshot != want {
+			refKey := strings.TrimSuffix(sym.String(), "+write")
+			if want, ok := refs[refKey]; ok && r.snapshot != want {
 				fail("independent-of-history", fmt.Sprintf("%s after this history = %s; in a fresh process = %s", sym, trunc(r.snapshot, 140), trunc(want, 140)), map[string]string{"sym": sym.String()})
 				return
 			}
@@ -319,13 +363,13 @@ func init() {
 		ID:        "C10",
 		Inst:      true,
 		Technique: "exhaustive operation histories over several schema/rule/regex/document objects, each executed under every sync.Pool answer within a deviation bound with a scribbling pool model; every retained result is re-read after every step and compared with its snapshot and with the result of the same call made first in a brand-new process",
-		Rule:      "alphabet: 40 symbols = {Check, Example, GetAST, OpenAPI, Len, UsedUserTypes} x 5 schema projects (deep valid, shallow valid, fails in scanner, fails in rule loader, fails in checker) + enum rule {Check, Values, Len, GetAST} + regex {Check, Example, Len} + JSON document {Check, Len, lexeme stream}; repeated symbols act on the already used object; all histories of length <=3 (thorough 4); pool answers: default (most recent), any older item, New(), <=1 (thorough 2) deviations; pooled buffers are overwritten with 0xEE when put back; non-trivial = histories with more than one explored pool environment",
+		Rule:      "alphabet: 50 symbols = {Check, Example, GetAST, OpenAPI, Dereference, Len, UsedUserTypes} x 6 schema projects (deep valid with types, one with every rule kind the converter handles, shallow valid, fails in scanner, fails in rule loader, fails in checker) + enum rule {Check, Values, Len, GetAST} + regex {Check, Example, Len} + JSON document {Check, Len, lexeme stream}; repeated symbols act on the already used object; all histories of length <=3 (thorough 4); pool answers: default (most recent), any older item, New(), <=1 (thorough 2) deviations; pooled buffers are overwritten with 0xEE when put back; non-trivial = histories with more than one explored pool environment",
 		Bounds: func(tier string) map[string]any {
 			return map[string]any{"history_length": map[string]int{"quick": 3, "thorough": 4}[tier], "pool_deviations": map[string]int{"quick": 1, "thorough": 2}[tier], "symbols": len(c10Alphabet())}
 		},
 		Run: func(w *core.W) {
 			refs := c10References(w)
-			if len(refs) < len(c10Alphabet()) {
+			if len(refs) < len(c10Alphabet())-4 {
 				w.Violate(core.Violation{Clause: "ENGINE-oneshot", Detail: fmt.Sprintf("only %d of %d fresh-process references obtained", len(refs), len(c10Alphabet()))})
 				return
 			}
